@@ -206,6 +206,65 @@ Section DijkstraTree.
       eapply dj_relax_inv; eauto. apply Hj. left; reflexivity.
   Qed.
 
+  (* the state after top(); pop() *)
+  Definition dj_popped (st : dj_state W) : dj_state W :=
+    {| dj_dist := dj_dist W st; dj_pred := dj_pred W st;
+       dj_heap := heap_pop (option W) klt (dj_key W (dj_dist W st)) (dj_heap W st) |}.
+
+  Lemma dj_pop_inv st ord u r :
+    DInv (fun _ _ _ => False) st ord -> dj_heap W st = u :: r ->
+    DInv (pend_of u (out_edges h u)) (dj_popped st) (u :: ord)
+    /\ Permutation (dj_heap W (dj_popped st)) r /\ ~ In u ord /\ ~ In u r.
+  Proof.
+    intros I Eh. set (s1 := dj_popped st).
+    assert (Hpop : Permutation (dj_heap W s1) r).
+    { unfold s1, dj_popped; cbn [dj_heap]. rewrite Eh. eapply Permutation_cons_inv. apply hp_pop_perm. }
+    assert (Hset : forall x, In x ((u :: ord) ++ dj_heap W s1) <-> In x (ord ++ dj_heap W st)).
+    { intros x. rewrite Eh. cbn [app In]. rewrite !in_app_iff. cbn [In]. split.
+      - intros [->|[Hx|Hx]]; auto. right; right. apply (Permutation_in _ Hpop); exact Hx.
+      - intros [Hx|[->|Hx]]; auto. right; right. apply (Permutation_in _ (Permutation_sym Hpop)); exact Hx. }
+    pose proof (d_nodup _ _ _ I) as Hnd. rewrite Eh in Hnd.
+    assert (Hu : ~ In u ord /\ ~ In u r).
+    { apply NoDup_remove_2 in Hnd. split; intros Hc; apply Hnd, in_or_app; auto. }
+    split; [|split; [exact Hpop|exact Hu]].
+    constructor.
+    - unfold s1; cbn [dj_popped dj_pred]. apply I.
+    - cbn [app]. constructor.
+      + intros Hc. apply in_app_or in Hc as [Hc|Hc]; [apply (proj1 Hu Hc)|].
+        apply (proj2 Hu). apply (Permutation_in _ Hpop); exact Hc.
+      + apply NoDup_remove_1 in Hnd. eapply Permutation_NoDup; [|exact Hnd].
+        apply Permutation_app_head, Permutation_sym, Hpop.
+    - intros x Hx. apply Hset in Hx. apply (d_range _ _ _ I x Hx).
+    - split; [apply Hset; apply (d_src _ _ _ I)|unfold s1; cbn [dj_popped dj_pred]; apply (d_src _ _ _ I)].
+    - intros w Hw. rewrite Hset. unfold s1; cbn [dj_popped dj_pred]. apply (d_mem _ _ _ I w Hw).
+    - unfold s1; cbn [dj_popped dj_pred]. constructor; [apply I|apply Hu|].
+      intros e He. apply (d_heap _ _ _ I u e); [rewrite Eh; left; reflexivity|exact He].
+    - unfold s1 at 2; cbn [dj_popped dj_pred]. intros w e Hw He.
+      destruct (d_heap _ _ _ I w e) as (p & Hj & Hp); [|exact He|exists p; split; [exact Hj|right; exact Hp]].
+      rewrite Eh. right. apply (Permutation_in _ Hpop); exact Hw.
+    - intros x e y [<-|Hx] Hj.
+      + left. split; [reflexivity|]. apply out_edges_complete; exact Hj.
+      + destruct (d_closed _ _ _ I x e y Hx Hj) as [[]|Hy]. right. apply Hset; exact Hy.
+  Qed.
+
+  Lemma dj_done_inv st u ord : DInv (pend_of u []) st (u :: ord) -> DInv (fun _ _ _ => False) st (u :: ord).
+  Proof.
+    intros I2. constructor; try apply I2.
+    intros x e y Hx Hj. destruct (d_closed _ _ _ I2 x e y Hx Hj) as [[_ []]|Hy]. right; exact Hy.
+  Qed.
+
+  Lemma dj_final_inv st ord : DInv (fun _ _ _ => False) st ord -> dj_heap W st = [] ->
+    pred_tree h s (dj_pred W st) ord.
+  Proof.
+    intros I Eh.
+    pose proof (d_nodup _ _ _ I) as H1. pose proof (d_range _ _ _ I) as H2.
+    pose proof (d_src _ _ _ I) as H3. pose proof (d_mem _ _ _ I) as H4.
+    pose proof (d_closed _ _ _ I) as H5.
+    rewrite Eh, app_nil_r in *.
+    constructor; auto; try apply I.
+    intros x e y Hx Hj. destruct (H5 x e y Hx Hj) as [[]|Hy]; exact Hy.
+  Qed.
+
   Lemma dj_loop_inv : forall fuel st ord dist pred,
     DInv (fun _ _ _ => False) st ord ->
     dj_loop W w0 wadd wltb fuel h wts s st = DjOk dist pred ->
@@ -213,49 +272,15 @@ Section DijkstraTree.
   Proof.
     induction fuel as [|fuel IH]; intros st ord dist pred I Hl; [discriminate|].
     cbn [dj_loop] in Hl. destruct (dj_heap W st) as [|u r] eqn:Eh.
-    - injection Hl as _ <-. exists ord.
-      pose proof (d_nodup _ _ _ I) as H1. pose proof (d_range _ _ _ I) as H2.
-      pose proof (d_src _ _ _ I) as H3. pose proof (d_mem _ _ _ I) as H4.
-      pose proof (d_closed _ _ _ I) as H5.
-      rewrite Eh, app_nil_r in *.
-      constructor; auto; try apply I.
-      intros x e y Hx Hj. destruct (H5 x e y Hx Hj) as [[]|Hy]; exact Hy.
+    - injection Hl as _ <-. exists ord. apply dj_final_inv; assumption.
     - destruct (nth u (dj_dist W st) None) as [du|]; [|discriminate].
-      match type of Hl with context [fold_left ?f ?l (Some ?st1)] => set (s1 := st1) in *; set (F := f) in * end.
-      destruct (fold_left F (out_edges h u) (Some s1)) as [st2|] eqn:Ef; [|discriminate].
-      assert (Hpop : Permutation (dj_heap W s1) r).
-      { unfold s1; cbn [dj_heap]. eapply Permutation_cons_inv. apply hp_pop_perm. }
-      assert (Hset : forall x, In x ((u :: ord) ++ dj_heap W s1) <-> In x (ord ++ dj_heap W st)).
-      { intros x. rewrite Eh. cbn [app In]. rewrite !in_app_iff. cbn [In]. split.
-        - intros [->|[Hx|Hx]]; auto. right; right. apply (Permutation_in _ Hpop); exact Hx.
-        - intros [Hx|[->|Hx]]; auto. right; right. apply (Permutation_in _ (Permutation_sym Hpop)); exact Hx. }
-      pose proof (d_nodup _ _ _ I) as Hnd. rewrite Eh in Hnd.
-      assert (Hu : ~ In u ord /\ ~ In u r).
-      { apply NoDup_remove_2 in Hnd. split; intros Hc; apply Hnd, in_or_app; auto. }
-      assert (I1 : DInv (pend_of u (out_edges h u)) s1 (u :: ord)).
-      { constructor.
-        - unfold s1; cbn [dj_pred]. apply I.
-        - cbn [app]. constructor.
-          + intros Hc. apply in_app_or in Hc as [Hc|Hc]; [apply (proj1 Hu Hc)|].
-            apply (proj2 Hu). apply (Permutation_in _ Hpop); exact Hc.
-          + apply NoDup_remove_1 in Hnd. eapply Permutation_NoDup; [|exact Hnd].
-            apply Permutation_app_head, Permutation_sym, Hpop.
-        - intros x Hx. apply Hset in Hx. apply (d_range _ _ _ I x Hx).
-        - split; [apply Hset; apply (d_src _ _ _ I)|unfold s1; cbn [dj_pred]; apply (d_src _ _ _ I)].
-        - intros w Hw. rewrite Hset. unfold s1; cbn [dj_pred]. apply (d_mem _ _ _ I w Hw).
-        - unfold s1; cbn [dj_pred]. constructor; [apply I|apply Hu|].
-          intros e He. apply (d_heap _ _ _ I u e); [rewrite Eh; left; reflexivity|exact He].
-        - unfold s1 at 2; cbn [dj_pred]. intros w e Hw He.
-          destruct (d_heap _ _ _ I w e) as (p & Hj & Hp); [|exact He|exists p; split; [exact Hj|right; exact Hp]].
-          rewrite Eh. right. apply (Permutation_in _ Hpop); exact Hw.
-        - intros x e y [<-|Hx] Hj.
-          + left. split; [reflexivity|]. apply out_edges_complete; exact Hj.
-          + destruct (d_closed _ _ _ I x e y Hx Hj) as [[]|Hy]. right. apply Hset; exact Hy. }
+      destruct (dj_pop_inv st ord u r I Eh) as (I1 & _).
+      unfold dj_popped in I1. rewrite Eh in I1.
+      match type of Hl with context [fold_left ?f ?l (Some ?st1)] => destruct (fold_left f l (Some st1)) as [st2|] eqn:Ef end;
+        [|discriminate].
       assert (I2 : DInv (pend_of u []) st2 (u :: ord)).
       { eapply dj_fold_inv; [exact I1| |exact Ef]. intros e y Hin. apply out_edges_sound; exact Hin. }
-      apply (IH st2 (u :: ord) dist pred); [|exact Hl].
-      constructor; try apply I2.
-      intros x e y Hx Hj. destruct (d_closed _ _ _ I2 x e y Hx Hj) as [[_ []]|Hy]. right; exact Hy.
+      apply (IH st2 (u :: ord) dist pred); [apply dj_done_inv; exact I2|exact Hl].
   Qed.
 
   Theorem dijkstra_pred_tree dist pred :
